@@ -18,6 +18,8 @@ def gen_case(rng):
     n = rng.randint(2, 8)
     tasks = gen.rand_dag(rng, n, p_edge=rng.choice([0.3, 0.5, 0.8]), pkgs=rng.choice([[""], ["", "a"], ["a/b", "a", ""], list(gen.PKGS)]), par_p=rng.choice([0, 0.5, 1]),
                          kinds={"run_command": 3, "run_experiment": 4, "group": 1, "combine": 1})
+    if rng.random() < 0.35:
+        tasks = share_names(rng, tasks)
     scripts = {}
     for t in tasks:
         if t["kind"] in gen.PROC_KINDS:
@@ -46,6 +48,34 @@ def gen_case(rng):
     if rc and rng.random() < 0.15:
         blocker = {"task": rng.choice(rc)["id"], "kind": rng.choice(["file", "dangling-symlink"])}
     return {"tasks": gen.dump(tasks), "scripts": scripts, "history": hist, "outer_env": outer_env, "blocker": blocker}
+
+
+def share_names(rng, tasks):
+    """the same task NAME in several packages (identifiers stay unique)"""
+    ren, used = {}, set()
+    pool = ["t%d" % j for j in range(max(2, len(tasks) // 2))]
+    for t in tasks:
+        for _ in range(10):
+            nm = rng.choice(pool)
+            if (t["pkg"], nm) not in used:
+                break
+        else:
+            nm = "u-" + t["name"]
+        used.add((t["pkg"], nm))
+        ren[t["id"]] = gen.tid(t["pkg"], nm)
+    out = []
+    for t in tasks:
+        deps = [ren[d] for d in t["deps"]]
+        if t["kind"] == "combine":
+            seen, keep = set(), []
+            for d in deps:
+                n0 = gen.split_tid(d)[1]
+                if n0 not in seen:
+                    seen.add(n0)
+                    keep.append(d)
+            deps = keep
+        out.append(gen.mk_task(t["pkg"], gen.split_tid(ren[t["id"]])[1], t["kind"], deps, par=t["par"], rel_ok=rng.random() < 0.7))
+    return out
 
 
 def render(v):
@@ -170,6 +200,8 @@ def eval_case(case):
                     elif lr["get_deps_paths"] != (got_deps.split(":") if got_deps else []):
                         key = "C07:lib-get_deps_paths-nonempty-for-no-deps" if not got_deps else "C07:lib-get_deps_paths-differs"
                         out["violations"].append({"key": key, "msg": "%s: get_deps_paths()=%r, COND_DEPS=%r" % (tid, lr["get_deps_paths"], got_deps), "witness": W})
+                    elif lr.get("get_deps_paths_again") != lr["get_deps_paths"] or lr.get("get_output_path_again") != co:
+                        out["violations"].append({"key": "C07:lib-second-call-differs", "msg": "%s: a second get_deps_paths()/get_output_path() call returned %r / %r (first call %r, COND_OUT %r)" % (tid, lr.get("get_deps_paths_again"), lr.get("get_output_path_again"), lr["get_deps_paths"], co), "witness": W})
                     elif lr["in_output_dir"] != os.path.join(co, "sub/file.txt") or lr["in_output_dir_path"] != os.path.join(co, "q.bin"):
                         out["violations"].append({"key": "C07:lib-in_output_dir-differs", "msg": "%s: in_output_dir -> %r / %r" % (tid, lr["in_output_dir"], lr["in_output_dir_path"]), "witness": W})
             for d, ps in seen_for_dep.items():
